@@ -3,4 +3,4 @@ NEXT Next
 INVARIANT Emit
 INVARIANT Laws
 CHECK_DEADLOCK FALSE
-CONSTANTS MaxDia = 0  AlphaStride = 10
+CONSTANTS MaxDia = 1  DiaStride = 4  AlphaStride = 10
